@@ -373,6 +373,9 @@ def guard(ctx, inst, body, s_nodes, edges, what, require_edges=True):
                 for d in body.defs.get(l, []):
                     dn = body.nodes[d]
                     if dn.kind == "assign" and dn.ev.get("rv") in ("ref", "rawptr", "use"):
+                        if dn.ev.get("rv") == "use" and body.local_name(l):
+                            # `state = current`: a user variable receiving a new value IS a reassignment of the tested value
+                            continue
                         unmark.discard(d)
                         if dn.ev.get("rv") == "use":
                             nxt.append(op_local(dn.ev["a"]))
